@@ -22,25 +22,27 @@ def estOk (md : Mode) (m : Int) (est : Nat) : Bool :=
   let d := (strBytes (Codec.str62 (tmp.natAbs : Nat))).length
   est = d || est = d + 1
 
-/-- aio2.send auth enc chunked ivsent sqn calls chunkout m est ivhex [maclog] [enclog]
-      => ret ivsent' sqn' calls' chunkout' wirehex          (select class, link takes everything) -/
+/-- aio2.send auth enc chunked open ivsent sqn calls chunkout m est ivhex [maclog] [enclog]
+      => ret open' ivsent' sqn' calls' chunkout' wirehex     (select class, link takes everything) -/
 def hSend : Handler
-  | [auth, enc, chunked, ivs, sqn, calls, cout, m, est, iv, maclog, enclog] => do
+  | [auth, enc, chunked, opn, ivs, sqn, calls, cout, m, est, iv, maclog, enclog] => do
+    let opn ← pNat opn
     let md ← pMode "select" auth enc chunked
     let ivs ← pNat ivs; let sqn ← pNat sqn; let calls ← pNat calls; let cout ← pNat cout
     let m ← pInt m; let est ← pNat est; let iv ← pHex iv
     let maclog ← pHexTuples maclog; let enclog ← pHexTuples enclog
     if !estOk md m est then some "bad-est" else
     some (withCrypto maclog [] enclog [] fun cr =>
-      match send2 md cr iv { ivSent := ivs = 1, sqn := sqn, enc := { calls := calls, chunkOut := cout } } m est with
-      | none => "0"
-      | some (tx, w) => s!"1 {showBool tx.ivSent} {tx.sqn} {tx.enc.calls} {tx.enc.chunkOut} {hexOfBytes w}")
+      match send2 md cr iv { ivSent := ivs = 1, sqn := sqn, enc := { calls := calls, chunkOut := cout }, isOpen := opn = 1 } m est with
+      | none => s!"0 {opn}"
+      | some (tx, w) => s!"1 {showBool tx.isOpen} {showBool tx.ivSent} {tx.sqn} {tx.enc.calls} {tx.enc.chunkOut} {hexOfBytes w}")
   | _ => none
 
-/-- aio2.nbsend auth enc chunked ivsent sqn calls macacchex m est ivhex queuehex cap fiv fbody fmac [drains] [maclog] [enclog]
-      => ret ivsent' sqn' calls' macacchex' nwritten writtenhex queuehex' drainsused -/
+/-- aio2.nbsend auth enc chunked open ivsent sqn calls macacchex m est ivhex queuehex cap fiv fbody fmac [drains] [maclog] [enclog]
+      => ret open' ivsent' sqn' calls' macacchex' nwritten writtenhex queuehex' drainsused -/
 def hNbSend : Handler
-  | [auth, enc, chunked, ivs, sqn, calls, macacc, m, est, iv, q, cap, fiv, fbody, fmac, drains, maclog, enclog] => do
+  | [auth, enc, chunked, opn, ivs, sqn, calls, macacc, m, est, iv, q, cap, fiv, fbody, fmac, drains, maclog, enclog] => do
+    let opn ← pNat opn
     let md ← pMode "nonblock" auth enc chunked
     let ivs ← pNat ivs; let sqn ← pNat sqn; let calls ← pNat calls; let macacc ← pHex macacc
     let m ← pInt m; let est ← pNat est; let iv ← pHex iv; let q ← pHex q; let cap ← pNat cap
@@ -48,10 +50,10 @@ def hNbSend : Handler
     let maclog ← pHexTuples maclog; let enclog ← pHexTuples enclog
     if !estOk md m est then some "bad-est" else
     some (withCrypto maclog [] enclog [] fun cr =>
-      let tx : Tx2 := { ivSent := ivs = 1, sqn := sqn, enc := { calls := calls }, macAcc := macacc }
+      let tx : Tx2 := { ivSent := ivs = 1, sqn := sqn, enc := { calls := calls }, macAcc := macacc, isOpen := opn = 1 }
       let (ret, tx', l', ds') := nbSend md cr iv tx m est { out := q, taken := 0, cap := cap } ⟨fiv, fbody, fmac⟩ drains
       let written := l'.out.drop q.length
-      s!"{showBool ret} {showBool tx'.ivSent} {tx'.sqn} {tx'.enc.calls} {hexOfBytes tx'.macAcc} {written.length} {hexOfBytes written} {hexOfBytes l'.queue} {drains.length - ds'.length}")
+      s!"{showBool ret} {showBool tx'.isOpen} {showBool tx'.ivSent} {tx'.sqn} {tx'.enc.calls} {hexOfBytes tx'.macAcc} {written.length} {hexOfBytes written} {hexOfBytes l'.queue} {drains.length - ds'.length}")
   | _ => none
 
 def mkRx (buf : Bytes) (flag ivseen sqn calls : Nat) (chunkin : Int) : Rx2 :=
